@@ -93,7 +93,7 @@ func (e *Enc) isRepoFn(fn *ssa.Function) bool {
 func (fr *Frame) staticCall(fn *ssa.Function, args []*Val, bind []*Val, st *State, pos token.Pos) *Val {
 	pcBefore := st.pc
 	res := fr.staticCall1(fn, args, bind, st, pos)
-	if res != nil {
+	{
 		root := fr.root()
 		k := fnKey(fr.e.g, fn)
 		root.callResults[k] = append(root.callResults[k], callRes{pcBefore, res})
@@ -277,6 +277,9 @@ func (fr *Frame) applyContract(spec *FuncSpec, fn *ssa.Function, sig *types.Sign
 	res := fr.havocResults(sig, st, spec.Key)
 	bindResults(cf, res)
 	for _, c := range spec.Ensures {
+		if c.Internal {
+			continue
+		}
 		t, err := cf.evalClause(c, st, pre, nil, nil)
 		if err != nil {
 			fr.bindErr(c, err)
@@ -293,7 +296,77 @@ func (fr *Frame) applyContract(spec *FuncSpec, fn *ssa.Function, sig *types.Sign
 		e.trusted["assumed clause "+spec.Key+"["+c.Label+"]"] = true
 		e.assume(st.pc, t)
 	}
+	fr.assumeHeapInvs(st)
 	return res
+}
+
+// repComps: heap components that represent an abstract ghost field ("rep" directive) -> owning package name
+func (fr *Frame) repComps() map[string]string {
+	e := fr.e
+	if e.repCompsMap != nil {
+		return e.repCompsMap
+	}
+	e.repCompsMap = map[string]string{}
+	hf := &Frame{e: e, env: map[string]*Val{}, specVars: map[string]*Val{}, key: "rep"}
+	st := &State{pc: "true", heap: map[string]string{}}
+	for k, reps := range e.g.specs.Rep {
+		owner := k
+		if j := strings.Index(k, "."); j > 0 {
+			owner = k[:j]
+		}
+		for _, r := range reps {
+			ts, err := hf.evalTargets1(r, st)
+			if err != nil {
+				continue
+			}
+			for _, t := range ts {
+				e.repCompsMap[t.Comp] = owner
+			}
+		}
+	}
+	return e.repCompsMap
+}
+
+func (fr *Frame) pkgName() string {
+	root := fr.root()
+	if root.fn != nil {
+		if p := root.fn.Pkg; p != nil {
+			return p.Pkg.Name()
+		} else if root.fn.Parent() != nil && root.fn.Parent().Pkg != nil {
+			return root.fn.Parent().Pkg.Pkg.Name()
+		}
+	}
+	return ""
+}
+
+// assumeHeapInvs: trusted invariants of ghost state (declared with "heapinv") hold in state st
+func (fr *Frame) assumeHeapInvs(st *State) {
+	e := fr.e
+	if len(e.g.specs.HeapInvs) == 0 {
+		return
+	}
+	hf := &Frame{e: e, env: map[string]*Val{}, specVars: map[string]*Val{}, key: "heapinv"}
+	root := fr.root()
+	pkgName := ""
+	if root.fn != nil {
+		if p := root.fn.Pkg; p != nil {
+			pkgName = p.Pkg.Name()
+		} else if root.fn.Parent() != nil && root.fn.Parent().Pkg != nil {
+			pkgName = root.fn.Parent().Pkg.Pkg.Name()
+		}
+	}
+	for _, c := range e.g.specs.HeapInvs {
+		if len(c.Scope) > 0 && !contains(c.Scope, pkgName) {
+			continue
+		}
+		t, err := hf.evalClause(c, st, st, nil, nil)
+		if err != nil {
+			e.g.reportBindErr("heapinv", c, err)
+			continue
+		}
+		e.trusted["heap invariant ["+c.Label+"]"] = true
+		e.assume(st.pc, t)
+	}
 }
 
 // ---------- modifies targets ----------
@@ -308,8 +381,55 @@ type modTarget struct {
 }
 
 func (cf *Frame) evalTargets(src string, pre *State) ([]modTarget, error) {
+	ts, err := cf.evalTargets1(src, pre)
+	if err != nil {
+		return ts, err
+	}
+	// a target on an abstract ghost field covers the components that represent it
+	e := cf.e
+	for _, t := range ts {
+		for k, reps := range e.g.specs.Rep {
+			j := strings.LastIndex(k, ".")
+			if t.Comp != "G_"+san(k[:j])+"_"+k[j+1:] {
+				continue
+			}
+			for _, r := range reps {
+				rs, err := cf.evalTargets1(r, pre)
+				if err != nil {
+					return ts, err
+				}
+				ts = append(ts, rs...)
+			}
+		}
+	}
+	return ts, nil
+}
+
+func (cf *Frame) evalTargets1(src string, pre *State) ([]modTarget, error) {
 	e := cf.e
 	src = strings.TrimSpace(src)
+	if strings.HasPrefix(src, "mapsof:") {
+		// every map of the type of field <TypeKey>.<field> (coarse)
+		k := strings.LastIndex(src, ".")
+		tk, f := src[7:k], src[k+1:]
+		for _, t := range e.g.allTypes {
+			if typeKey(e.g, t) != tk {
+				continue
+			}
+			if u, ok := t.Underlying().(*types.Struct); ok {
+				for i := 0; i < u.NumFields(); i++ {
+					if mt, ok := u.Field(i).Type().Underlying().(*types.Map); ok && u.Field(i).Name() == f {
+						dom, val, cnt, ks, vs := e.mapComps(mt)
+						return []modTarget{
+							{Comp: dom, Sort: "(Array Int (Array " + ks + " Bool))", Kind: "whole"},
+							{Comp: val, Sort: "(Array Int (Array " + ks + " " + vs + "))", Kind: "whole"},
+							{Comp: cnt, Sort: "(Array Int Int)", Kind: "whole"}}, nil
+					}
+				}
+			}
+		}
+		return nil, fmt.Errorf("unbound:%s", src)
+	}
 	if strings.HasPrefix(src, "type:") {
 		// whole component: type:<TypeKey>.<field>
 		k := strings.LastIndex(src, ".")
@@ -505,8 +625,14 @@ func (fr *Frame) invoke(common *ssa.CallCommon, args []*Val, recv *Val, st *Stat
 				all[i+1] = &v
 			}
 		}
+		pcBefore := st.pc
 		res := fr.applyContract(spec, nil, msig, all, pkg, st, pos)
-		return fr.tupleOrSingle(res, sig)
+		rv2 := fr.tupleOrSingle(res, sig)
+		{
+			root := fr.root()
+			root.callResults[ikey] = append(root.callResults[ikey], callRes{pcBefore, rv2})
+		}
+		return rv2
 	}
 	// closed-world dispatch over repo implementers
 	iface := it.Underlying().(*types.Interface)
@@ -708,6 +834,17 @@ func (fr *Frame) appendBuiltin(common *ssa.CallCommon, args []*Val, st *State, p
 		e.oblige("owner", "no write into a caller-owned array: "+fr.srcText(pos), st.pc,
 			sOr(sNot(fits), "(= "+n+" 0)", "(= "+sSel(ow0, "(s-arr "+s.T+")")+" 1)"), nil, pos, "append in place")
 	}
+	if comp == "A_byte" {
+		// the appended segment is byte-for-byte the source: same abstract identity (strOf is a function of
+		// the bytes of a segment)
+		e.needStrOf()
+		srcID := "(strOf " + srcCont + " " + srcLo + " " + n + ")"
+		if _, isStr := common.Args[1].Type().Underlying().(*types.Basic); isStr {
+			srcID = t.T
+		}
+		e.assume(st.pc, "(= (strOf "+newA+" (+ (s-off "+s.T+") (s-len "+s.T+")) "+n+") "+srcID+")")
+		e.assume(st.pc, "(= (strOf "+newB+" (s-len "+s.T+") "+n+") "+srcID+")")
+	}
 	// when nothing is appended to a nil slice the result stays nil: the in-place case covers it (0 <= cap)
 	e.set(st, comp, srt, sIte(fits, sStore(cur, "(s-arr "+s.T+")", newA), sStore(cur, r, newB)))
 	e.set(st, "$next", "Int", sIte(fits, nx, "(+ "+nx+" 1)"))
@@ -858,6 +995,7 @@ func verifyFunction(g *G, fn *ssa.Function, spec *FuncSpec) *FuncResult {
 		for _, c := range fr.extraRequires {
 			e.fact(c)
 		}
+		fr.assumeHeapInvs(st)
 		if e.ownerOn() {
 			fr.ownerEntry(st, args)
 		}
@@ -974,6 +1112,10 @@ func (fr *Frame) frameCheck(spec *FuncSpec, out *State) {
 	nx1 := e.next(out)
 	for _, k := range names {
 		if k == "$next" || strings.HasPrefix(k, "Seen_") || strings.HasPrefix(k, "C_") || strings.HasPrefix(k, "Bx_") {
+			continue
+		}
+		if owner, ok := fr.repComps()[k]; ok && owner != fr.pkgName() {
+			// representation of an abstract ghost field of another package: covered by that field's own frame
 			continue
 		}
 		if strings.HasPrefix(k, "GG_") && e.g.specs.Frameless[k[3:]] {
